@@ -224,7 +224,14 @@ def run_property(prop, tier, jobs, C, extra=None):
             'value semantics for payload/selector objects: a store through one access path does not update other '
             'aliases (sites listed under value_semantics_alias_sites)',
             'string rendering and logging are opaque and total except bytes.decode and ip_address',
-        ] + (extra or {}).get('assumptions', []),
+            'T3 HMAC, AES-CBC, RSA signatures and Diffie-Hellman are uninterpreted functions (no cryptographic property '
+            'beyond determinism and output length is used); Python integers are mathematical, 32-bit Message IDs are '
+            'assumed not to wrap (T6)',
+        ] + [f'naming fact assumed at the call sites of {q} and not proved in it: {src}'
+             for q, c_ in C.CONTRACTS.items() for src in (getattr(c_, 'call_facts', None) or [])]
+          + [f'observer ghost defined by the contract of {q}: {", ".join(sorted(getattr(c_, "defines", {}) or {}))}'
+             for q, c_ in C.CONTRACTS.items() if getattr(c_, 'defines', None)]
+          + (extra or {}).get('assumptions', []),
         'wall_s': round(wall, 2),
         'violations': len(violations),
     }
